@@ -357,11 +357,12 @@ Definition go_enum_decls_of (custom_structs : list str) (e : renum) : TM (list g
     mdo struct_name <- go_acronyms_to_uppercase (original (eid sh));  (* go.rs:312 *)
     mdo content_field <- go_lift (to_camel_case content_key);         (* go.rs:313 (total since the /repo fix of to_camel_case) *)
     mdo tag_field <- go_format_field_name tag_key true;               (* go.rs:314 *)
-    mdo struct_short_name <-                                          (* go.rs:315 original[..1] *)
-      match original (eid sh) with
-      | [] => mpanic "go.rs:315"
-      | c :: _ => if c <? 128 then ret (str_to_lowercase uc [c]) else mpanic "go.rs:315"
-      end;
+    (* go.rs:315: the first CHARACTER, lower-cased with char::to_lowercase (the /repo fix of the byte slice
+       original[..1], which panicked on a multi-byte first character); "" for an empty name *)
+    mdo struct_short_name <- ret (match original (eid sh) with
+                                  | [] => []
+                                  | c :: _ => u_lower uc c
+                                  end);
     mdo tag_acr <- go_acronyms_to_uppercase tag_key;                  (* go.rs:319 *)
     let variant_key_type := struct_name ++ to_pascal_case tag_acr ++ lit "s" in
     mdo vs <- mmapM (go_variant_of sh custom_structs struct_name tag_key) (evariants sh);
